@@ -21,7 +21,7 @@ import (
 	"github.com/flamego/flamego/verifharness/internal/rt"
 )
 
-const rule = "case = a valid route set in which a random subset of routes gets Headers(...) 1..3 times with 0..2 pairs each (the last call is the truth), routes registered through Get / Route / Routes(\"GET,POST\") / Routes(\"get, Post\") / Routes(path, \"GET\", \"POST\") / Any, incl. fully static and optional routes; requests built from route instances (both forms, every method) with random header sets (absent, empty, matching, non-matching, 4..9 KB long with a verdict that hinges on the last byte, other case of the name, repeated fields whose values agree on the verdict). " +
+const rule = "case = a valid route set in which a random subset of routes gets Headers(...) 1..3 times with 0..2 pairs each (the last call is the truth), routes registered through Get / Route / Routes(\"GET,POST\") / Routes(\"get, Post\") / Routes(path, \"GET\", \"POST\") / Any / Get while AutoHead is on (GET and HEAD), incl. fully static and optional routes; requests built from route instances (both forms, every method) with random header sets (absent, empty, matching, non-matching, 4..9 KB long with a verdict that hinges on the last byte, other case of the name in the constraint, repeated fields whose values agree on the verdict). " +
 	"Oracle: reference matcher with the gate 'every constrained header has a non-empty value matched by its expression' applied to both forms and all methods of the route; the handler that ran (or not-found) must be the reference winner. " +
 	"non-trivial = a case with a request whose path is admitted by a constrained route whose constraints fail (so another route or not-found must take it), or that reaches a constrained route through its short form, a non-first method or a fully static path; distinct by case text"
 
@@ -42,6 +42,8 @@ func (h HReg) methods() []string {
 	switch {
 	case h.Via == "get":
 		return []string{"GET"}
+	case h.Via == "autohead-get":
+		return []string{"GET", "HEAD"}
 	case strings.HasPrefix(h.Via, "route:"):
 		return model.ExpandMethod(strings.TrimPrefix(h.Via, "route:"))
 	case h.Via == "routes-list", h.Via == "routes-args", h.Via == "routes-lower":
@@ -100,6 +102,12 @@ func checkCase(c Case) (out evid.Outcome) {
 			switch {
 			case g.Via == "get":
 				r = f.Get(g.R, h)
+			case g.Via == "autohead-get":
+				// Get while AutoHead is on registers the route for HEAD too: the
+				// constraints are the route's, whatever the method
+				f.AutoHead(true)
+				r = f.Get(g.R, h)
+				f.AutoHead(false)
 			case strings.HasPrefix(g.Via, "route:"):
 				r = f.Route(strings.TrimPrefix(g.Via, "route:"), g.R, []flamego.Handler{h})
 			case g.Via == "routes-list":
@@ -118,9 +126,8 @@ func checkCase(c Case) (out evid.Outcome) {
 		return nil
 	}()
 	if regErr != nil {
-		out.Excluded = 1
-		out.Classes = append(out.Classes, "registration-rejected")
-		return out
+		// every route of a case is one the statement of C08 obliges the router to accept
+		return evid.Fail("registration-panic", "registration panicked: %v; routes %s", regErr, js(c.Regs))
 	}
 	compiled := map[string][]model.MRoute{}
 	nogate := func(*model.MRoute, model.Form, http.Header) bool { return true }
@@ -219,7 +226,7 @@ func show(c Case) string {
 
 var hdrNames = []string{"X-Api", "x-api", "Accept", "User-Agent", "X-B"}
 var hdrExprs = []string{"", "^v1$", "Caddy", "[0-9]+", "^(a|b)$", "^[0-9a-f]+$", "(?i)^caddy", "a$", "^[a-z0-9/ ]*$"}
-var hdrVals = []string{"v1", "v12", "Caddy/2", "x", "7", "a", "", "ab", "CADDY", "deadbeef", "7a", "V1", "A", "B", "caddy", " v1", "v1 "}
+var hdrVals = []string{"v1", "v12", "Caddy/2", "x", "7", "a", "", "ab", "CADDY", "deadbeef", "7a", "V1", "A", "B", "caddy"}
 
 // hdrValue draws a header value: mostly from the pool, sometimes a very long
 // one (4..9 KB, beyond any buffer a matcher might use) whose verdict may hinge
@@ -250,7 +257,7 @@ func genHeaders(t *rapid.T) []string {
 }
 
 func genCase(t *rapid.T) Case {
-	vias := []string{"get", "get", "route:POST", "routes-list", "routes-args", "routes-lower", "any", "route:*", "route:get"}
+	vias := []string{"get", "get", "route:POST", "routes-list", "routes-args", "routes-lower", "any", "route:*", "route:get", "autohead-get"}
 	pool := gen.SegPoolW(t, 5, false, [3]int{50, 70, 88})
 	n := rapid.IntRange(1, 6).Draw(t, "nroutes")
 	g := model.NewRegistrar()
@@ -364,4 +371,9 @@ func TestReplay(t *testing.T) {
 			return checkCase(c)
 		},
 	})
+}
+
+func js(v interface{}) string {
+	b, _ := json.Marshal(v)
+	return string(b)
 }
